@@ -771,6 +771,12 @@ package db
 //@   requires !failed && !owned && !discardDeferred
 //@   modifies failed, owned, discardDeferred, commitCalls, committed, kvCommits, kvCommitOK, kvDiscards, newTxns
 //@   tags C19
+//@ // the fields of a new collection version - whether the version is created here or existed already because
+//@ // a migration to it was registered first - are those of the new schema version
+//@ func (*DB).updateSchema
+//@   loop 8 ranges schema.Fields
+//@   loop 9 ranges schema.Fields
+//@   tags C19
 //@ func (*DB).updateSchema
 //@   assert before call#1 GetCollectionByID: arg1 == mapget(existingSchemaByName, schema.Name).VersionID
 //@   modifies failed, colSaves
